@@ -15,6 +15,8 @@ oracle      scenario family (1..3 edited files x 0..2 renames incl. a file insid
             Prompts through a pty: `rename` without -y (guarded prompt: SIGINT exits 130 at once, nothing changed, lock
             released; SIGTERM is honoured once the prompt is answered) and `replace` without -y (no guard: both
             signals are honoured once the prompt is answered).
+            Apply phase after the prompt: `rename` without -y on a pty, answered "y", SIGINT / SIGTERM raised by the shim
+            immediately before each mutating call that follows the prompt (the guard must be gone by then).
             Failing command: apply of a stale plan (fails by itself after editing the first file) + signal must report
             the failure status and the Error line, exactly as without the signal.
             The three repaired defects (lock left at the prompt exit, 130 over a failed command) are VIOLATIONs if
@@ -283,15 +285,18 @@ def model_request(prog, res, k, sig, rep):
 # ------------------------------------------------------------------------------------------------
 # the confirmation prompt, through a pty
 
-def run_pty(args, d, sig, answer, wait_for=b"Apply? [y/N]:", timeout=15):
+def run_pty(args, d, sig, answer, wait_for=b"Apply? [y/N]:", timeout=15, shim_env=None):
     """run `renamify args` under the shim on a pty; once the prompt text has appeared send `sig` (number or None),
-    then `answer` (bytes or None).  Returns (prompt_seen, rc or 'timeout', output, Run-like events)"""
+    then `answer` (bytes or None).  `shim_env`: extra FSSHIM_* settings (e.g. a signal raised by the shim before
+    mutating call k).  Returns (prompt_seen, rc or 'timeout', output, Run-like events)"""
     import pty
     tmp = tempfile.mkdtemp(prefix="fsshim-log.")
     try:
         logfile = os.path.join(tmp, "events.log")
         env = shim._base_env(d, None, logfile)
         env["FSSHIM_COUNT_SYNC"] = "0"
+        if shim_env:
+            env.update({k: str(v) for k, v in shim_env.items()})
         m, s = pty.openpty()
         p = subprocess.Popen([common.CLI_BIN] + args, cwd=d, env=env, stdin=s, stdout=s, stderr=s, start_new_session=True)
         os.close(s)
@@ -382,6 +387,86 @@ def prompt_cases(ctx, command, job_tree, S, R, thorough):
                         "cancelled_msg": b"Operation cancelled by user." in buf,
                         "tail": buf[-160:].decode("utf-8", "replace")})
     return out
+
+
+def prompt_apply_cases(ctx, tree, S, R, quick, rng):
+    """`rename` without -y on a pty, the prompt answered "y", and SIGINT / SIGTERM raised by the shim immediately before
+    mutating call k of the APPLY PHASE (every call after the prompt).  Returns (problem or None, model requests, expectations)."""
+    args = ["rename", S, R, "--no-auto-init"]
+
+    def one(shim_env, signo=None, answer=b"y\n"):
+        with common.scratch() as d:
+            common.materialize(d, tree)
+            before = common.snapshot(d)
+            plan = json.loads(common.cli(["plan", S, R, "--dry-run", "--output", "json", "--no-auto-init"], d)[1])["plan"]
+            complete, prob = oracle.expected_tree(before, plan, d)
+            if prob:
+                return None
+            seen, rc, buf, run = run_pty(args, d, signo, answer, shim_env=shim_env)
+            after = common.snapshot(d)
+            return {"prompt_seen": seen, "rc": rc,
+                    "state": "complete" if after == complete else "unchanged" if after == before else "partial",
+                    "diff_vs_before": common.snap_diff(before, after, limit=4) if after not in (complete, before) else None,
+                    "lock": lock_left(d), "hist": history_len(d), "letters": letters(run), "calls": len(run.mutating),
+                    "events": run.mutating, "handler_ran": b"Received SIG" in buf,
+                    "cancelled_msg": b"Operation cancelled by user." in buf, "tail": buf[-200:].decode("utf-8", "replace")}
+    try:
+        yes = one(None)
+        at_prompt = one(None, signo=pysignal.SIGINT, answer=None)
+    except OSError as ex:
+        ctx.notes.append(f"pty not available: {ex}")
+        return None, [], []
+    if not yes or not at_prompt or not yes["prompt_seen"] or yes["state"] != "complete" or yes["rc"] != 0:
+        ctx.broke("machinery", "pty apply-phase baseline", {"yes_run": {k: v for k, v in (yes or {}).items() if k != "events"}})
+        return None, [], []
+    pre_n = len(os.path.commonprefix([at_prompt["letters"], yes["letters"]]))
+    n = yes["calls"]
+    apply_ks = list(range(pre_n, n))
+    interesting = [k for k in apply_ks if not shim.is_log_path(yes["events"][k].path)]
+    if quick:
+        userish = [k for k in interesting if yes["letters"][k] in "uhU"]
+        ks = {interesting[0], interesting[-1]} | set(userish[:1]) | set(rng.sample(userish, min(3, len(userish))))
+        combos = [("INT", 1), ("TERM", 1)]
+    else:
+        logs = [k for k in apply_ks if k not in interesting]
+        ks = set(interesting) | set(rng.sample(logs, min(4, len(logs))))
+        combos = [("INT", 1), ("INT", 3), ("TERM", 1)]
+    jobs = [(k, sig, rep) for k in sorted(ks) for sig, rep in combos]
+
+    def work(j):
+        k, sig, rep = j
+        return one({"FSSHIM_AT": k, "FSSHIM_MODE": "signal", "FSSHIM_SIGNAL": sig, "FSSHIM_REPEAT": rep})
+    with concurrent.futures.ThreadPoolExecutor(max_workers=4) as ex:
+        results = list(ex.map(work, jobs))
+    reqs, exp = [], []
+    prog = yes["letters"][:pre_n] + "P" + yes["letters"][pre_n:]
+    for (k, sig, rep), r in zip(jobs, results):
+        if r is None:
+            continue
+        ctx.case(("prompt-apply", k, sig, rep))
+        ctx.count(f"prompt_apply:{sig}x{rep}")
+        case = {"op": "prompt-apply", "tree": {p: (v[1].decode() if v[0] == "f" else v[0]) for p, v in tree.items()},
+                "search": S, "replace": R, "args": args, "answer": "y", "signal": sig, "repeat": rep, "k": k, "of": n,
+                "calls_before_prompt": pre_n, "call": yes["events"][k].raw.split(" => ")[0].split(" ", 2)[2]}
+        obs = {x: r[x] for x in ("rc", "state", "lock", "hist", "calls", "handler_ran", "cancelled_msg", "diff_vs_before", "tail")}
+        bad = None
+        if not r["prompt_seen"]:
+            bad = "prompt never appeared"
+        elif r["state"] == "partial":
+            bad = "partially applied tree"
+        elif (r["hist"] == 1) != (r["state"] == "complete"):
+            bad = f"history entries +{r['hist']} with tree {r['state']}"
+        elif r["lock"]:
+            bad = "lock file left behind"
+        elif not (r["rc"] == 130 or (r["rc"] == 0 and sig == "INT" and r["state"] == "complete")):
+            bad = f"exit status {r['rc']}"
+        if bad:
+            return ({"case": case, "observed": {**obs, "problem": bad}}, reqs, exp)
+        ran = True if sig == "TERM" else r["rc"] == 130
+        reqs.append(model_request(prog, 0, (k + 1) if ran else None, sig, rep))
+        exp.append((case, f"status={r['rc']} calls={r['calls']} lock={1 if r['lock'] else 0} history={r['hist']} "
+                    f"user={r['letters'].count('u')} exited={1 if r['cancelled_msg'] else 0}"))
+    return None, reqs, exp
 
 
 # ------------------------------------------------------------------------------------------------
@@ -570,6 +655,22 @@ def run(ctx):
                 break
         ctx.sample({"op": "prompt", "request": preqs[0], "model": model[0], "observed": pexp[0][1]})
 
+    # ---- signals during the apply phase of an interactively confirmed rename ---------------------------
+    bad, areqs, aexp = prompt_apply_cases(ctx, build_tree(3, 2, ["foo", "bar"], False), "foo_bar", "baz_qux", quick, rng)
+    if bad:
+        ctx.violation("fault", bad["case"], expected="tree in {before, complete}, history entry iff complete, lock released, status 130",
+                      observed=bad["observed"], model_prediction="after the prompt guard is dropped a signal only stores the flag: all effects, status 130",
+                      note="rename confirmed with 'y' on a pty; the signal is raised immediately before mutating call k of the apply phase")
+        return
+    if areqs:
+        model = common.run_model(areqs)
+        ctx.cov["disagreements_checked"] += len(areqs)
+        for rq, m, (case, obs) in zip(areqs, model, aexp):
+            if m != obs:
+                ctx.broke("correspondence", "apply phase after the prompt vs Signals.run", {"case": case, "request": rq, "model": m, "observed": obs})
+                break
+        ctx.sample({"op": "prompt-apply", "request": areqs[0], "model": model[0]})
+
     # ---- a command that fails by itself and is signalled ----------------------------------------------
     sreqs, sexp = [], []
     for sig, rep, k in ([("TERM", 1, 2), ("INT", 3, 2)] if quick else [("TERM", 1, 0), ("TERM", 3, 2), ("INT", 3, 0), ("INT", 3, 2), ("TERM", 1, 5)]):
@@ -628,6 +729,22 @@ def replay(ctx, path):
         want_rc = 130 if case.get("signal") else 0
         if r["lock"] or not seen or rc != want_rc or (case.get("answer") != "y" and not r["unchanged"]):
             ctx.violation("fault", case, expected=f"status {want_rc}, lock released, tree unchanged unless answered y", observed=r)
+    elif op == "prompt-apply":
+        tree = {k: (("f", v.encode(), 0o644) if v != "d" else ("d", 0o755)) for k, v in case["tree"].items()}
+        with common.scratch() as d:
+            common.materialize(d, tree)
+            before = common.snapshot(d)
+            plan = json.loads(common.cli(["plan", case["search"], case["replace"], "--dry-run", "--output", "json", "--no-auto-init"], d)[1])["plan"]
+            complete, _ = oracle.expected_tree(before, plan, d)
+            seen, rc, buf, run = run_pty(case["args"], d, None, b"y\n", shim_env={
+                "FSSHIM_AT": case["k"], "FSSHIM_MODE": "signal", "FSSHIM_SIGNAL": case["signal"], "FSSHIM_REPEAT": case.get("repeat", 1)})
+            after = common.snapshot(d)
+            r = {"prompt_seen": seen, "rc": rc, "state": "complete" if after == complete else "unchanged" if after == before else "partial",
+                 "lock": lock_left(d), "hist": history_len(d), "calls": len(run.mutating), "tail": buf[-200:].decode("utf-8", "replace")}
+        print(json.dumps(r, indent=1))
+        if (not seen or r["state"] == "partial" or r["lock"] or (r["hist"] == 1) != (r["state"] == "complete")
+                or not (rc == 130 or (rc == 0 and case["signal"] == "INT" and r["state"] == "complete"))):
+            ctx.violation("fault", case, expected="all or nothing, lock released, status 130", observed=r)
     elif op == "stale-plan apply":
         m = re.search(r"SIG(\w+) x(\d+) before mutating call (\d+)", case["steps"][-1])
         s = stale_case(m.group(1), int(m.group(2)), int(m.group(3)))
